@@ -88,14 +88,6 @@ func classesOf(kind string) []string {
 	}
 }
 
-func isZeroLike(kind, class string) bool {
-	switch class {
-	case "zero", "negzero", "empty", "false":
-		return kind != "void" && !(kind == "uint32slice" && class == "zero")
-	}
-	return false
-}
-
 var intLimits = map[string][2]int64{
 	"int8": {math.MinInt8, math.MaxInt8}, "int16": {math.MinInt16, math.MaxInt16},
 	"int32": {math.MinInt32, math.MaxInt32}, "int64": {math.MinInt64, math.MaxInt64},
